@@ -146,9 +146,16 @@ impl Scenario for UnsolScenario {
                     }
                     script.push(Op::Connect);
                 }
-                _ => script.push(Op::LinkStatusRequest),
+                _ => {
+                    if rng.bool() {
+                        script.push(Op::LinkStatusRequest)
+                    } else {
+                        script.push(Op::SetDecodeLevel(rng.chance(1, 4)))
+                    }
+                }
             }
         }
+        crate::verif::props::gen_out::sprinkle_splits(rng, &mut script);
         SoutCase {
             cfg,
             ctrl: CtrlAnswers::AllSuccess,
